@@ -42,6 +42,13 @@ Property clauses (the only sources of a VIOLATION), per the statement of C20:
   C20_AgreesWithInProcess     agree_ok for every k >= 1
   C20_HeaderTimeFirst         CreateCsvString(): 't' first, every non-lagged variable of the block once,
                               no column twice
+Math names (fourth follow-up): the constant of equation 1 is spelled as one of 26 closed expressions over names
+of the math module and the builtins the parser admits (tanh, sinh, atan2, log1p, hypot, e, tau, erf, max, min,
+abs, pow, round, ...), the time trend may be wrapped (max(t, 0.0), hypot(t, 0.0), ...), an exogenous list
+expression may use them too; the driver computes their float values, so the block stays affine.  The generated
+module must resolve every name the in-process solver resolves (C20_ResolvesSolverNames, C20_Closed over the
+module's own globals, which the driver reads from the import statements of the written file).
+
 Names and lags (second follow-up): the grammar also uses variable names that are locals of the generated
 RunOneStep / Iterator (err, cnt = 500.0, new_vector, in_vec - the loop state must stay the module's own:
 C20_LoopStateOwn), a lag of a lagged variable (LAG2_y = LAG_y(k-1)), two lags of ONE lagged variable in any declaration order
@@ -60,6 +67,7 @@ Readings (the weaker one where the statement leaves a choice):
   * everything about the spelling / order of the generated sections is conformance (DRIFT), not property.
 """
 import ast
+import builtins
 import importlib.util
 import json
 import math
@@ -79,10 +87,22 @@ PARAM_VALUE = [2, 500, 2, 2]                                         # the param
 LOOP_NAMES = ('err', 'cnt')                                       # = LoopNames of Codegen
 OWN_NAMES = ('STEP', 'MaxTime', 'MaxIterations', 'Err_Tolerance', 'PrintIterations', 'VariableList', 'main',
              'RunOneStep', 'Iterator', 'CalcError', 'WriteCSV', 'CreateCsvString', 'orig_vector')   # = ModuleOwnNames
-MATH_NAMES = ['sqrt', 'exp', 'log', 'floor', 'pi']          # = MathNames of MC_Codegen / MC_Codegen_Trace.cfg
+# = MathNames of MC_Codegen / MC_Codegen_Trace.cfg: names of the math module the blocks use
+MATH_NAMES = ['sqrt', 'exp', 'log', 'floor', 'pi', 'tanh', 'sinh', 'cosh', 'atan2', 'log1p', 'expm1', 'log2', 'hypot',
+              'e', 'tau', 'erf', 'copysign', 'degrees', 'gamma', 'trunc', 'fabs']
+BUILTIN_NAMES = ['float', 'max', 'min', 'sum', 'pow', 'abs', 'round']   # = BuiltinNames of Codegen (parser's good_tokens)
+UNIVERSE = set(MATH_NAMES) | set(BUILTIN_NAMES)                          # = SolverNames
+# = ConstSpellingReads of MC_Codegen (fn = index + 1): the constant of equation 1 as a closed expression
+CONST_SPELLINGS = ['sqrt(4.0)', 'tanh(0.5) + 1.5', 'sinh(1.0)', 'cosh(0.0) + 1.0', 'atan2(2.0, 1.0) + 1.0',
+                   'log1p(1.0) + 1.0', 'expm1(1.0)', 'log2(4.0)', 'hypot(1.2, 1.6)', 'e', 'tau / pi', 'erf(0.5) + 1.5',
+                   'copysign(2.0, 1.0)', 'degrees(pi) / 90.0', 'gamma(3.0)', 'trunc(2.5)', 'max(2.0, 1.0)',
+                   'min(2.0, 3.0)', 'abs(-2.0)', 'pow(2.0, 1.0)', 'round(2.2)', 'float(2)', 'sum([1.0, 1.0])',
+                   'exp(log(2.0))', 'floor(2.5)', 'fabs(-2.0)']
+# = TimeWrapReads of MC_Codegen (tw): spellings of the time trend, all equal to t for t >= 0
+TIME_WRAPS = ['t', 'max(t, 0.0)', 'hypot(t, 0.0)', 'abs(t)', 'copysign(t, 1.0)']
 RESERVED_ATTRS = ('MaxIterations', 'MaxTime', 'STEP', 'PrintIterations', 'Err_Tolerance', 'VariableList')
 NAME_FIELDS = ('endo', 'lagged', 'exos', 'ics', 'maxTime', 'foundT')
-GRAMMAR_FIELDS = ('n', 'A', 'lag', 'ic', 'exo', 'cst', 'userT', 'useT', 'tol', 'maxTime', 'nm')
+GRAMMAR_FIELDS = ('n', 'A', 'lag', 'ic', 'exo', 'cst', 'userT', 'useT', 'tol', 'maxTime', 'nm', 'fn', 'tw')
 REGEN_FRACTION_QUICK = 1.0 / 3.0
 
 
@@ -119,11 +139,14 @@ def system(block):
                 e['same'][param] = F(1)
             else:
                 e['const'] = F(2)
-                e['const_text'] = 'sqrt(4.0)' if block['cst'] == 1 else None
+                if block['cst'] == 1:                      # a closed expression over math names / builtins
+                    e['const_text'] = CONST_SPELLINGS[block.get('fn', 1) - 1]
+                    e['const'] = F(eval(e['const_text'], _math_namespace()))   # exactly the float both solvers get
         else:
             e['const'] = F(1)
         if i == n - 1 and block['useT']:
             e['same']['t'] = F(1, 4)
+            e['same_text'] = {'t': TIME_WRAPS[block.get('tw', 0)]}
         eqs[v] = e
     if block['cst'] == 2:
         eqs[param] = {'same': {}, 'lag': {}, 'const': F(PARAM_VALUE[nm]), 'k': F(0), 'const_text': None}
@@ -151,10 +174,17 @@ def system(block):
         full = [20.0] * 2 + [25.0] * (mt + 1)
         paths['G'] = full[:mt + 1]
         path_text['G'] = '[20.0, ] * 2 + [25.0, ] * %d' % (mt + 1)
+    elif block['exo'] == 3:                                  # math names and builtins in the list expression
+        path_text['G'] = '[hypot(12.0, 16.0), ] * 2 + [max(25.0, e) + log1p(0.0), ] * %d' % (mt + 1)
+        paths['G'] = [float(v) for v in eval(path_text['G'], _math_namespace())][:mt + 1]
     if block['userT'] == 'exo':
         paths['t'] = [float(k) for k in range(mt + 1)]
         path_text['t'] = '[' + ', '.join(repr(v) for v in paths['t']) + ']'
     return {'eqs': eqs, 'lagname': lagname, 'paths': paths, 'path_text': path_text, 'last': last}
+
+
+def _math_namespace():
+    return {k: getattr(math, k) for k in dir(math) if not k.startswith('_')}
 
 
 def _num(fr):
@@ -164,7 +194,7 @@ def _num(fr):
 def _rhs(e, lagname):
     terms = []          # (sign, text)
     for u, c in e['same'].items():
-        terms.append((c, u))
+        terms.append((c, e.get('same_text', {}).get(u, u)))
     for nm, dummy, c in e.get('lag_terms', []):
         terms.append((c, nm))
     out = ''
@@ -248,8 +278,9 @@ def check_grammar_binding(block):
     lag_got.extend([nm, of] for nm, of in lag_lines(block))
     if block['userT'] == 'endo':
         lag_got.append(['t_minus_1', 't'])
-    exo_want = [[d['name'], d['len']] for d in block['exos']]
-    exo_got = [[nm, len(eval(sysm['path_text'][nm]))] for nm in sysm['paths']]
+    exo_want = [[d['name'], d['len'], sorted(set(d['reads']))] for d in block['exos']]
+    exo_got = [[nm, len(eval(sysm['path_text'][nm], _math_namespace())), names_in(sysm['path_text'][nm])]
+               for nm in sysm['paths']]
     if lag_want != lag_got or exo_want != exo_got:
         raise core.MachineryError('grammar/driver disagree on lag / exogenous lists: %r' % (block,))
 
@@ -274,7 +305,7 @@ def _index_kind(node):
     return ast.unparse(node)
 
 
-EMPTY_SECTIONS = {'decl': [], 'pack': [], 'orig': [], 'iterUnpack': [], 'iterBinds': [], 'iterReads': [],
+EMPTY_SECTIONS = {'globals': [], 'declReads': [], 'decl': [], 'pack': [], 'orig': [], 'iterUnpack': [], 'iterBinds': [], 'iterReads': [],
                   'unpack': [], 'varList': [], 'loopAfterPack': True}
 
 
@@ -285,11 +316,29 @@ def _empty_sections():
 def sections_of(path):
     """Name sets of the sections of the generated module, read off its syntax tree."""
     out = _empty_sections()
+    all_globals = [set()]
     try:
         with open(path) as f:
             tree = ast.parse(f.read())
         cls = [n for n in tree.body if isinstance(n, ast.ClassDef) and n.name == 'SFCModel'][0]
         fn = {f.name: f for f in cls.body if isinstance(f, ast.FunctionDef)}
+        # names the module's global namespace provides: its imports (a star import of math gives every public
+        # name of math), what it defines at top level, and the builtins
+        provided = set(dir(builtins))
+        for st in tree.body:
+            if isinstance(st, ast.ImportFrom):
+                for al in st.names:
+                    if al.name == '*':
+                        if st.module == 'math':
+                            provided |= {k for k in dir(math) if not k.startswith('_')}
+                    else:
+                        provided.add(al.asname or al.name)
+            elif isinstance(st, ast.Import):
+                provided |= {(al.asname or al.name).split('.')[0] for al in st.names}
+            elif isinstance(st, (ast.ClassDef, ast.FunctionDef)):
+                provided.add(st.name)
+        all_globals[0] = provided
+        out['globals'] = sorted(provided & UNIVERSE)
         for st in fn['__init__'].body:
             if isinstance(st, ast.Expr) and isinstance(st.value, ast.Call) and len(st.value.args) == 2 \
                     and isinstance(st.value.func, ast.Attribute) and st.value.func.attr == '__init__':
@@ -298,6 +347,9 @@ def sections_of(path):
                 nm = st.targets[0].attr
                 if nm not in RESERVED_ATTRS and nm not in out['decl']:
                     out['decl'].append(nm)
+                    # math / builtin names the declaration (an exogenous list expression) uses
+                    out['declReads'].append(sorted({n.id for n in ast.walk(st.value) if isinstance(n, ast.Name)}
+                                                   & (UNIVERSE | (set(dir(math)) - provided))))
         body = fn['Iterator'].body
         tgt = body[0].targets[0]
         out['iterUnpack'] = [e.id for e in tgt.elts] if isinstance(tgt, ast.Tuple) else [tgt.id]
@@ -343,8 +395,8 @@ def sections_of(path):
         # the loop state is initialised after every variable has been packed into locals
         out['loopAfterPack'] = bool(loop_init_at) and min(loop_init_at) > last_pack_at
     except Exception:
-        return _empty_sections(), False
-    return out, True
+        return _empty_sections(), False, set()
+    return out, True, all_globals[0]
 
 
 # --------------------------------------------------------------------------------------
@@ -530,12 +582,13 @@ def _one_generation(block, gen, text, path, uid, cache):
                    'all': [str(x) for x in gen.AllVariables],
                    'nonLagged': [str(x) for x in gen.NonLagged],
                    'eqReads': [names_in(eq) for eq in gen.EquationList]})
-    sec, parsed = sections_of(path)
+    sec, parsed, provided = sections_of(path)
     gf = {'ev': 'GenerateFile', 'ok': True}
     gf.update(sec)
     events.append(gf)
     info['unbound'] = sorted({nm for reads in sec['iterReads'] for nm in reads
-                              if nm not in sec['iterUnpack'] and nm not in math_ns})
+                              if nm not in sec['iterUnpack'] and nm not in provided} |
+                             {nm for reads in sec['declReads'] for nm in reads if nm not in provided})
     packed = [p['name'] for p in sec['pack']]
     info['loop_captured'] = [] if sec['loopAfterPack'] else sorted(set(packed) & set(LOOP_NAMES))
     info['own_captured'] = sorted((set(packed) & set(OWN_NAMES)) |
@@ -660,7 +713,7 @@ def execute(block, scratch, uid, regenerate=False):
                 ln = len(eval(value, dict(math_ns)))
             except Exception:
                 ln = -1
-            exos.append({'name': str(nm), 'len': ln})
+            exos.append({'name': str(nm), 'len': ln, 'reads': sorted(set(names_in(value)) & UNIVERSE)})
         ev.update(ok=True,
                   endo=[{'name': str(nm), 'reads': names_in(eq)} for nm, eq in gen.Endogenous],
                   lagged=[{'name': str(nm), 'of': str(of)} for nm, of in gen.Lagged],
@@ -723,6 +776,8 @@ def _signature_of_generation(clause, block, want, endo, info):
         if root:
             return root
         m = re.match(r"NameError: name '(\w+)' is not defined", info['exc'])
+        if m and m.group(1) in info['unbound'] and (hasattr(math, m.group(1)) or m.group(1) in BUILTIN_NAMES):
+            return 'generated-module-does-not-resolve-a-name-the-in-process-solver-resolves'
         if m and info['stage'] == 'run' and m.group(1) in info['unbound']:
             return 'generated-module-never-binds-' + m.group(1)
         m = re.match(r"AttributeError: 'SFCModel' object has no attribute '(\w+)'", info['exc'])
@@ -881,12 +936,13 @@ def run(rep):
     if not blocks:
         raise core.MachineryError('TLC emitted no behaviours for ' + cfg)
     # smallest blocks first, so that the case stored for a violation is a minimal witness
-    blocks.sort(key=lambda b: (b['nm'], b['n'], b['maxTime'], b['lag'], b['exo'], b['cst'], int(b['useT']),
+    blocks.sort(key=lambda b: (b['nm'], b['fn'] > 1 or b['tw'] > 0 or b['exo'] == 3, b['n'], b['maxTime'], b['lag'], b['exo'], b['cst'], int(b['useT']),
                                int(b['ic']), b['tol'], core.canonical(b)))
     rep.extra['blocks_without_user_time'] = sum(1 for b in blocks if b['userT'] == 'none')
     rep.extra['blocks_with_names_of_generated_locals'] = sum(1 for b in blocks if b['nm'] == 1)
     rep.extra['blocks_with_names_of_the_generated_class'] = sum(1 for b in blocks if b['nm'] == 2)
     rep.extra['blocks_with_a_variable_named_NEW_other_variable'] = sum(1 for b in blocks if b['nm'] == 3 and b['n'] > 1)
+    rep.extra['blocks_with_math_or_builtin_names'] = sum(1 for b in blocks if b['cst'] == 1 or b['tw'] or b['exo'] == 3)
     rep.extra['blocks_with_a_lag_of_a_lagged_variable'] = sum(1 for b in blocks if b['lag'] >= 3)
     rep.extra['blocks_with_two_lags_of_one_lagged_variable'] = sum(1 for b in blocks if b['lag'] >= 4)
     # regeneration (main() twice on one generator object): every block in the thorough tier, a seeded third
